@@ -884,6 +884,13 @@ class Gen:
             self.count("values_undef")
         return ["values", vs, rows]
 
+    def scanfree_body(self, wit):
+        """a GRAPH body without any triple pattern: the empty group or VALUES only (graph-existence patterns)"""
+        self.count("graph_body_without_triples")
+        if self.rng.random() < 0.5:
+            return ["group", []]
+        return ["group", [self.values(wit)]]
+
     def group(self, depth, wit, active):
         rng = self.rng
         elems = []
@@ -911,7 +918,7 @@ class Gen:
             elif r < 0.50:
                 if self.named and rng.random() < 0.45:
                     g = rng.choice(self.named + ([E + "gx"] if rng.random() < 0.08 else []))
-                    elems.append(["graph", C(g), self.group(depth + 1, wit, g)])
+                    elems.append(["graph", C(g), self.scanfree_body(wit) if rng.random() < 0.15 else self.group(depth + 1, wit, g)])
                     self.count("graph_iri")
                 else:
                     free = [v for v in VARS if v not in wit]
@@ -925,7 +932,7 @@ class Gen:
                     else:
                         inner = E + "gx"
                         wit.setdefault(gv, inner)
-                    elems.append(["graph", V(gv), self.group(depth + 1, wit, inner)])
+                    elems.append(["graph", V(gv), self.scanfree_body(wit) if rng.random() < 0.15 else self.group(depth + 1, wit, inner)])
                     self.count("graph_var")
             elif r < 0.68:
                 elems.append(self.values(wit))
@@ -1438,3 +1445,81 @@ def mus_equal(a, b):
             out.append([k, v])
         return sorted(out)
     return sorted(norm(r) for r in a) == sorted(norm(r) for r in b)
+
+
+
+# ------------------------------------------------------------------------------------------------
+# dedicated families (used by checks/c01.py and checks/c02.py, quick and thorough)
+# ------------------------------------------------------------------------------------------------
+def gen_scanfree_graphs(rng):
+    """Several GRAPH operators with DIFFERENT graph terms (existing iri / missing iri / empty named graph / variables) whose
+    bodies contain no triple pattern and are mostly textually identical ({} / VALUES only / BIND only), combined in joins
+    and UNIONs: graph-existence patterns, where nothing but the GRAPH operator itself carries the graph term."""
+    ds = gen_dataset(rng)
+    while len(ds["named"]) < 2:
+        ds = gen_dataset(rng)
+    if rng.random() < 0.6:
+        ds["named"][rng.randrange(len(ds["named"]))][1] = []            # an empty, catalogued graph
+    names = [g for g, _ in ds["named"]]
+    terms = [C(g) for g in names] + [C(E + "gx"), V("g"), V("e")]
+    rng.shuffle(terms)
+
+    def body(kind):
+        if kind == 0:
+            return ["group", []]
+        if kind == 1:
+            return ["group", [["values", ["a"], [[C("1")], [C("zz")]]]]]
+        if kind == 2:
+            return ["group", [["values", ["a", "b"], [[C(SUBJ[0]), None], [None, C("2")]]]]]
+        return ["group", [["bind", "CONCAT", [["c", "x", "s"]], "f"]]]
+
+    n = rng.choice([2, 2, 3])
+    kind = rng.choice([0, 0, 1, 2, 3])
+    graphs = []
+    for i in range(n):
+        k = kind if rng.random() < 0.8 else rng.choice([0, 1, 2])
+        if k == 3 and i > 0:
+            k = 0                                                        # one BIND only: a second one would rebind ?f
+        graphs.append(["graph", terms[i], body(k)])
+    r = rng.random()
+    if r < 0.45:
+        elems = list(graphs)                                             # joined
+    elif r < 0.8:
+        elems = [["union", [["group", [g]] for g in graphs]]]
+    else:
+        elems = [graphs[0], ["union", [["group", [g]] for g in graphs[1:]] + [["group", [["values", ["c"], [[C("5")]]]]]]]]
+    if rng.random() < 0.35:
+        t = rng.choice(ds["default"]) if ds["default"] else [SUBJ[0], PRED[0], SUBJ[1]]
+        elems.insert(rng.randrange(len(elems) + 1), ["bgp", [[V("d"), C(t[1]), V("c") if r < 0.8 else V("b")]]])
+    q = {"distinct": False, "proj": "*", "from": [], "from_named": [], "where": ["group", elems], "group_by": [], "order_by": [], "limit": None}
+    if rng.random() < 0.2:
+        q["from_named"] = rng.sample(names, rng.choice([1, min(2, len(names))]))
+    return ds, q
+
+
+PRIMES = {2: [131, 137, 149, 191, 263, 521], 4: [257, 263, 277, 311, 523], 16: [1031, 1033, 1049, 1061, 1091, 1097]}
+
+
+def gen_prime_wide(rng, threads):
+    """A join whose LEFT input has a prime number of rows, at least 64 per worker of a `threads`-sized pool (so that the
+    parallel bind join splits it and the row count is no multiple of 2, 4 or 16), every left row having join partners."""
+    n = rng.choice(PRIMES[threads])
+    W = lambda i: E + "w%d" % i
+    default = [[W(i), PRED[0], SUBJ[i % 5]] for i in range(n)]
+    default += [[W(i), PRED[2], str(1 + (i * 7) % 13)] for i in range(n)]
+    default += [[W(i), PRED[1], SUBJ[(i + 1) % 5]] for i in range(0, n, 3)]
+    ds = {"default": default, "named": [[GRAPHS[0], [[W(0), PRED[0], SUBJ[0]]]]]}
+    left = [V("a"), C(PRED[0]), V("b")]
+    shape = rng.choice(["bgp", "group-filter", "values-right", "union-left", "three"])
+    if shape == "bgp":
+        elems = [["bgp", [left, [V("a"), C(PRED[2]), V("c")]]]]
+    elif shape == "group-filter":
+        elems = [["bgp", [left]], ["group", [["bgp", [[V("a"), C(PRED[2]), V("c")]]], ["filter", ["cmp", "!=", V("c"), C("1")]]]]]
+    elif shape == "values-right":
+        elems = [["bgp", [left]], ["values", ["b"], [[C(s)] for s in SUBJ[:4]] + [[None]]]]
+    elif shape == "union-left":
+        elems = [["bgp", [left]], ["union", [["group", [["bgp", [[V("a"), C(PRED[2]), V("c")]]]]], ["group", [["bgp", [[V("a"), C(PRED[1]), V("d")]]]]]]]]
+    else:
+        elems = [["bgp", [left, [V("a"), C(PRED[2]), V("c")]]], ["group", [["bgp", [[V("a"), V("e"), V("b")]]], ["values", ["e"], [[C(PRED[0])], [None]]]]]]
+    q = {"distinct": False, "proj": "*", "from": [], "from_named": [], "where": ["group", elems], "group_by": [], "order_by": [], "limit": None}
+    return ds, q, n
